@@ -117,6 +117,10 @@ type SpecOpts struct {
 	UserErrorNode bool
 	MaxNodes      int
 	Spin          bool
+	// Lively: specs that keep moving -- message nodes end with a
+	// catch-all branch, action nodes with a default branch, targets
+	// are mostly existing nodes.
+	Lively bool
 }
 
 var nodePool = []string{"start", "n1", "n2", "n3", "aerr"}
@@ -237,6 +241,10 @@ func GenSpec(t *rapid.T, o SpecOpts) *ASpec {
 		a.NoAutoErrorNode = true
 	}
 	targets := append(append([]string{}, names...), "missing", "@t", "error")
+	if o.Lively {
+		targets = append(append(append([]string{}, names...), names...), names...)
+		targets = append(targets, "missing", "@t")
+	}
 	for _, name := range names {
 		l := "node." + name
 		n := &ANode{}
@@ -289,7 +297,10 @@ func GenSpec(t *rapid.T, o SpecOpts) *ASpec {
 				}
 				n.Branches = append(n.Branches, b)
 			}
-			if hasAction && rapid.Bool().Draw(t, l+".def") {
+			if o.Lively && !hasAction && n.BranchType == "message" && rapid.IntRange(0, 3).Draw(t, l+".catch") > 0 {
+				n.Branches = append(n.Branches, ABranch{HasPattern: true, Pattern: map[string]interface{}{}, Target: rapid.SampledFrom(names).Draw(t, l+".catchto")})
+			}
+			if hasAction && (rapid.Bool().Draw(t, l+".def") || o.Lively) {
 				// the usual shape: a default branch last
 				n.Branches = append(n.Branches, ABranch{Target: rapid.SampledFrom(targets).Draw(t, l+".defto")})
 			}
@@ -323,4 +334,137 @@ func genBindingsPattern(t *rapid.T, label string) interface{} {
 		}
 	}
 	return m
+}
+
+
+// Instantiate replaces the variables of a pattern by values.
+func Instantiate(t *rapid.T, p interface{}, label string) interface{} {
+	switch pv := p.(type) {
+	case string:
+		if len(pv) > 0 && pv[0] == '?' {
+			return rapid.SampledFrom(msgVals).Draw(t, label+".iv")
+		}
+		return pv
+	case map[string]interface{}:
+		m := map[string]interface{}{}
+		for _, k := range jsongen.SortedKeys(pv) {
+			kk := k
+			if len(k) > 0 && k[0] == '?' {
+				kk = rapid.SampledFrom(msgKeys).Draw(t, label+".ik")
+			}
+			m[kk] = Instantiate(t, pv[k], label+"."+k)
+		}
+		return m
+	case []interface{}:
+		a := make([]interface{}, len(pv))
+		for i, x := range pv {
+			a[i] = Instantiate(t, x, fmt.Sprintf("%s[%d]", label, i))
+		}
+		return a
+	}
+	return p
+}
+
+// GenMessageFor draws a message that is often an instance (plus noise)
+// of one of the spec's message-branch patterns.
+func GenMessageFor(t *rapid.T, a *ASpec, label string) interface{} {
+	var pats []interface{}
+	for _, name := range a.NodeNames() {
+		n := a.Nodes[name]
+		if n.NoBranching || n.BranchType != "message" {
+			continue
+		}
+		for _, b := range n.Branches {
+			if b.HasPattern && b.Pattern != nil {
+				pats = append(pats, b.Pattern)
+			}
+		}
+	}
+	if len(pats) == 0 || rapid.IntRange(0, 3).Draw(t, label+".rnd") == 0 {
+		return GenMessage(t, label)
+	}
+	m := Instantiate(t, pats[rapid.IntRange(0, len(pats)-1).Draw(t, label+".pi")], label)
+	if mm, ok := m.(map[string]interface{}); ok && rapid.Bool().Draw(t, label+".noise") {
+		mm[rapid.SampledFrom([]string{"z", "c", "b"}).Draw(t, label+".nk")] = rapid.SampledFrom(msgVals).Draw(t, label+".nv")
+	}
+	if m == nil {
+		return GenMessage(t, label)
+	}
+	return m
+}
+
+// GenLivelySpec draws a machine of the usual shape: message nodes whose
+// branches lead to action nodes or other message nodes, action nodes
+// that end with a default branch back to a message node.  Walks over
+// such specs consume several messages and run several actions.
+func GenLivelySpec(t *rapid.T, o SpecOpts) *ASpec {
+	a := &ASpec{Name: "lively", Nodes: map[string]*ANode{}}
+	nm := rapid.IntRange(1, 3).Draw(t, "nm")
+	na := rapid.IntRange(1, 3).Draw(t, "na")
+	var mnodes, anodes []string
+	for i := 0; i < nm; i++ {
+		mnodes = append(mnodes, []string{"start", "n1", "n2"}[i])
+	}
+	for i := 0; i < na; i++ {
+		anodes = append(anodes, []string{"a1", "a2", "a3"}[i])
+	}
+	all := append(append([]string{}, mnodes...), anodes...)
+	a.ActionErrorBranches = rapid.Bool().Draw(t, "aeb")
+	switch rapid.IntRange(0, 3).Draw(t, "aen") {
+	case 1, 2:
+		a.ActionErrorNode = rapid.SampledFrom(mnodes).Draw(t, "aenn")
+	case 3:
+		a.ActionErrorNode = "missing"
+	}
+	target := func(l string) string {
+		if rapid.IntRange(0, 19).Draw(t, l+".odd") == 0 {
+			return rapid.SampledFrom([]string{"missing", "@t", "error"}).Draw(t, l+".oddto")
+		}
+		return rapid.SampledFrom(all).Draw(t, l+".to")
+	}
+	for _, name := range mnodes {
+		l := "m." + name
+		n := &ANode{BranchType: "message"}
+		for i := rapid.IntRange(1, 3).Draw(t, l+".nb"); i > 0; i-- {
+			bl := fmt.Sprintf("%s.b%d", l, i)
+			b := ABranch{HasPattern: true, Pattern: GenPattern(t, o.Deterministic, bl), Target: target(bl)}
+			if rapid.IntRange(0, 3).Draw(t, bl+".hg") == 0 {
+				b.Guard = GenProg(t, ProgOpts{Guard: true, Emit: o.Emit, Fail: o.GuardFail, MaxOps: 2}, bl+".g")
+				b.GuardNative = o.NativeToo && rapid.IntRange(0, 2).Draw(t, bl+".gn") == 0
+			}
+			n.Branches = append(n.Branches, b)
+		}
+		if rapid.IntRange(0, 3).Draw(t, l+".catch") > 0 {
+			n.Branches = append(n.Branches, ABranch{HasPattern: true, Pattern: map[string]interface{}{}, Target: rapid.SampledFrom(all).Draw(t, l+".catchto")})
+		}
+		a.Nodes[name] = n
+	}
+	for _, name := range anodes {
+		l := "a." + name
+		n := &ANode{BranchType: "bindings"}
+		n.Action = GenProg(t, ProgOpts{Emit: o.Emit, Fail: o.Fail, Spin: o.Spin}, l+".a")
+		if o.NativeToo && rapid.IntRange(0, 2).Draw(t, l+".nat") == 0 {
+			n.ActionNative = true
+			n.InPlace = o.InPlace && rapid.Bool().Draw(t, l+".inplace")
+		}
+		for i := rapid.IntRange(0, 2).Draw(t, l+".nb"); i > 0; i-- {
+			bl := fmt.Sprintf("%s.b%d", l, i)
+			b := ABranch{HasPattern: true, Pattern: genBindingsPattern(t, bl), Target: target(bl)}
+			if rapid.IntRange(0, 3).Draw(t, bl+".hg") == 0 {
+				b.Guard = GenProg(t, ProgOpts{Guard: true, Emit: o.Emit, Fail: o.GuardFail, MaxOps: 2}, bl+".g")
+			}
+			n.Branches = append(n.Branches, b)
+		}
+		if rapid.IntRange(0, 9).Draw(t, l+".def") > 0 {
+			n.Branches = append(n.Branches, ABranch{Target: rapid.SampledFrom(mnodes).Draw(t, l+".defto")})
+		}
+		a.Nodes[name] = n
+	}
+	if o.UserErrorNode && rapid.IntRange(0, 3).Draw(t, "uerr") == 0 {
+		a.Nodes["error"] = &ANode{BranchType: "bindings", Branches: []ABranch{
+			{HasPattern: true, Pattern: map[string]interface{}{"lastNode": "?ln", "lastBindings": map[string]interface{}{"x": "?lx"}}, Target: mnodes[0]},
+			{HasPattern: true, Pattern: map[string]interface{}{"error": "?e", "lastNode": "a1"}, Target: mnodes[0]},
+		}}
+	}
+	return a
 }
